@@ -1,9 +1,27 @@
 package engine
 
 func init() {
-	generators["C01"] = func(p *pg) (Config, Plan) { return p.genCrash("C01") }
+	// C01 / C03 state what holds after ANY later Open; one run in 8 reaches the
+	// reopen through a failed call (error chains of the C10 generator) instead of
+	// a crash: an acknowledged entry must still be there, Open must still succeed
+	// and the WAL must still be usable
+	generators["C01"] = func(p *pg) (Config, Plan) {
+		if p.r.Intn(8) == 0 {
+			c := p.baseConfig("C01")
+			return c, p.errChains(&c)
+		}
+		return p.genCrash("C01")
+	}
 	generators["C02"] = func(p *pg) (Config, Plan) { return p.genCrash("C02") }
-	generators["C03"] = func(p *pg) (Config, Plan) { return p.genCrash("C03") }
+	generators["C03"] = func(p *pg) (Config, Plan) {
+		if p.r.Intn(8) == 0 {
+			c := p.baseConfig("C03")
+			c.Usability = true
+			plan := p.errChains(&c)
+			return c, plan
+		}
+		return p.genCrash("C03")
+	}
 	generators["C04"] = func(p *pg) (Config, Plan) { return p.genCrash("C04") }
 	generators["C13"] = func(p *pg) (Config, Plan) {
 		switch p.r.Intn(4) {
